@@ -22,7 +22,7 @@ use crate::{
 
 pub struct C06;
 
-pub const PRIM_PREAMBLE: &str = "let array = import! std.array.prim\nlet string = import! std.string.prim\nlet int = import! std.int.prim\nlet float = import! std.float.prim\nlet char = import! std.char.prim\nlet byte = import! std.byte.prim\nlet prim = import! std.prim\nlet sim = import! sim\nlet { Tree } = import! simtypes\n";
+pub const PRIM_PREAMBLE: &str = "let array = import! std.array.prim\nlet string = import! std.string.prim\nlet int = import! std.int.prim\nlet float = import! std.float.prim\nlet char = import! std.char.prim\nlet byte = import! std.byte.prim\nlet prim = import! std.prim\nlet lz = import! std.lazy.prim\nlet sim = import! sim\nlet { Tree } = import! simtypes\n";
 
 /// (module, function, argument kinds)
 const PRIMS: &[(&str, &str, &str)] = &[
@@ -125,6 +125,9 @@ fn failing_expr(rng: &mut Rng) -> String {
         "(string.len (string.slice \"abc\" 2 1))",
         "(string.len (string.slice \"日本\" 1 2))",
         "(array.len (array.slice [1, 2, 3] 2 9))",
+        // failures that are the *result of an asynchronously completing primitive*
+        "(lz.force (lz.lazy (\\u -> prim.error \"thunk failed\")))",
+        "(lz.force (lz.lazy (\\u -> 1 #Int+ lz.force (lz.lazy (\\v -> array.index [1] 5)))))",
     ])
     .to_string()
 }
@@ -180,9 +183,14 @@ fn rec_value_program(rng: &mut Rng) -> String {
 
 fn io_program(rng: &mut Rng) -> String {
     // IO typed programs (run with run_io): polymorphic results, exceptions, catch
-    let v = rng.below(5);
+    let v = rng.below(9);
     let head = format!("{}let io = import! std.io.prim\n", PRIM_PREAMBLE);
     match v {
+        // handlers that fail themselves, nested catches, a failing lazy inside an action
+        5 => format!("{}io.catch (io.throw \"first\") (\\e -> io.throw (string.append e \" second\"))\n", head),
+        6 => format!("{}io.catch (io.catch (io.throw \"inner\") (\\e -> io.throw \"handler\")) (\\e -> io.wrap (string.len e))\n", head),
+        7 => format!("{}io.catch (io.flat_map (\\x -> io.wrap (x #Int+ {})) (io.wrap 1)) (\\e -> io.flat_map (\\y -> io.wrap y) (io.wrap {}))\n", head, failing_expr(rng), failing_expr(rng)),
+        8 => format!("{}io.flat_map (\\x -> io.wrap (lz.force (lz.lazy (\\u -> x #Int+ {})))) (io.wrap 1)\n", head, failing_expr(rng)),
         0 => format!("{}io.wrap (rec let loop n acc = if n #Int< 1 then acc else loop (n #Int- 1) {{ f0 = acc.f0 #Int+ n }} in loop 5 {{ f0 = 1 }})\n", head),
         1 => format!("{}io.throw \"thrown\"\n", head),
         2 => format!("{}io.catch (io.throw \"thrown\") (\\e -> io.wrap (string.len e))\n", head),
